@@ -78,9 +78,15 @@ def table_digest(t):
     """byte-level digest of every column and every header value"""
     import hashlib
 
+    from astropy.time import Time
+
     h = hashlib.sha256()
     for name in t.colnames:
-        a = np.ascontiguousarray(np.asarray(t[name]))
+        c = t[name]
+        if isinstance(c, Time):  # exact internal representation (an object array of Time would hash pointers)
+            h.update(name.encode() + b"time" + np.asarray(c.jd1, dtype="<f8").tobytes() + np.asarray(c.jd2, dtype="<f8").tobytes())
+            continue
+        a = np.ascontiguousarray(np.asarray(c))
         h.update(name.encode() + str(a.dtype).encode() + str(a.shape).encode() + a.tobytes())
     for k in t.meta:
         h.update(repr((k, t.meta[k])).encode())
